@@ -30,6 +30,7 @@ type c12case struct {
 	Batch    bool   `json:"batch_of_non_terminating,omitempty"`
 	NArgs    int    `json:"n_args"`      // 0, 2 or 4 free-form arguments
 	Extra    string `json:"extra_flags"` // "", "LattrsR", "Lcaller"
+	FlagPath string `json:"flag_path"`   // "" = SetFlags; "scope" = the flags were toggled inside a SaveFlagsAndMod scope that has ended
 }
 
 var c12argsN = 2
@@ -40,6 +41,10 @@ func c12args() []any {
 		return nil
 	case 4:
 		return []any{"k", 1, "s", "two words"}
+	case -1: // ready-made Attr values only
+		return []any{slog.NewAttr("k", 1), slog.NewAttr("s", "two words")}
+	case -2: // one Attrs value
+		return []any{slog.Attrs{slog.NewAttr("k", 1)}}
 	}
 	return []any{"k", 1}
 }
@@ -199,6 +204,22 @@ func c12setup(cas c12case, recFile string) (slog.Logger, *os.File) {
 		fl |= slog.Lcaller
 	}
 	slog.SetFlags(fl)
+	if cas.FlagPath == "scope" {
+		// a scope that flips both interrupt flags, and ends before the call
+		var add, remove slog.Flags
+		if cas.NoInt {
+			remove |= slog.LnoInterrupt
+		} else {
+			add |= slog.LnoInterrupt
+		}
+		if cas.IntAlw {
+			remove |= slog.Linterruptalways
+		} else {
+			add |= slog.Linterruptalways
+		}
+		restore := slog.SaveFlagsAndMod(add, remove)
+		restore()
+	}
 	c12argsN = cas.NArgs
 	f, err := os.OpenFile(recFile, os.O_CREATE|os.O_WRONLY|os.O_APPEND, 0o644)
 	if err != nil {
@@ -261,6 +282,12 @@ func init() {
 					e.call(l, sev, fmt.Sprintf("batch %d", n))
 					n++
 				}
+			}
+			// odd log/slog levels through Entry.Log: none of them is a terminating severity
+			for _, lv := range []int{-20, -7, 1, 5, 9, 12, 15, 18, 19, 20, 32, 100} {
+				fmt.Printf("BEGIN Log(odd level) %d\n", lv)
+				l.Log(context.Background(), logslog.Level(lv), fmt.Sprintf("odd %d", lv))
+				n++
 			}
 			fmt.Printf("DONE %d\n", n)
 			os.Exit(0)
@@ -329,7 +356,7 @@ func c12eval(cas c12case, scratch string) (*Violation, string) {
 		return nil, "child infrastructure problem: " + firstLine(stdout)
 	}
 	mk := func(clause, detail string) *Violation {
-		sig := fmt.Sprintf("C12|%s|entry=%s|severity=%s|noint=%v|always=%v|testmode=%v|level=%s|%s|args=%d|extra=%s", clause, cas.Entry, levelName(slog.Level(cas.Sev)), cas.NoInt, cas.IntAlw, cas.TestMode, levelName(slog.Level(cas.Level)), cas.Format, cas.NArgs, cas.Extra)
+		sig := fmt.Sprintf("C12|%s|entry=%s|severity=%s|noint=%v|always=%v|testmode=%v|level=%s|%s|args=%d|extra=%s|flags-via=%s", clause, cas.Entry, levelName(slog.Level(cas.Sev)), cas.NoInt, cas.IntAlw, cas.TestMode, levelName(slog.Level(cas.Level)), cas.Format, cas.NArgs, cas.Extra, cas.FlagPath)
 		return mkViolation(sig, clause, detail+fmt.Sprintf(" [child stdout %.200q, exit status %d, record file %.200q]", stdout, exit, record), cas)
 	}
 	L := slog.Level(cas.Level)
@@ -437,17 +464,24 @@ func c12run(c *Ctx) {
 								if !c.Mine(n) || c.Expired() {
 									continue
 								}
-								variants := [][2]any{{[]int{0, 2, 4}[n%3], []string{"", "LattrsR", "Lcaller"}[(n/3)%3]}}
+								variants := [][3]any{{[]int{0, 2, 4, -1, -2}[n%5], []string{"", "LattrsR", "Lcaller"}[(n/5)%3], []string{"", "scope"}[(n/15)%2]}}
 								if c.Thorough() {
 									variants = nil
-									for _, na := range []int{0, 2, 4} {
+									for _, na := range []int{0, 2, 4, -1, -2} {
 										for _, ex := range []string{"", "LattrsR", "Lcaller"} {
-											variants = append(variants, [2]any{na, ex})
+											for _, fp := range []string{"", "scope"} {
+												variants = append(variants, [3]any{na, ex, fp})
+											}
 										}
 									}
+								} else if e.generic {
+									// quick: the generic entry points additionally with ready-made Attr arguments
+									variants = append(variants, [3]any{-1, "", ""}, [3]any{2, "", "scope"})
+								} else {
+									variants = append(variants, [3]any{2, "", "scope"})
 								}
 								for _, vr := range variants {
-									cas := c12case{Entry: e.name, Sev: int(sev), NoInt: noint, IntAlw: alw, TestMode: tm, Level: int(L), Format: f, NArgs: vr[0].(int), Extra: vr[1].(string)}
+									cas := c12case{Entry: e.name, Sev: int(sev), NoInt: noint, IntAlw: alw, TestMode: tm, Level: int(L), Format: f, NArgs: vr[0].(int), Extra: vr[1].(string), FlagPath: vr[2].(string)}
 									c.Count("evaluations", 1)
 									v, problem := c12eval(cas, scratch)
 									if problem != "" {
